@@ -2,13 +2,13 @@
    the F18 class, and in a quiescent state it leaves no room for undelivered output, an
    unserviced request, a producer parked with space, or an unfinished close. *)
 From Coq Require Import List ZArith Bool Arith Lia.
-From WV Require Import Lib.Conc Model.ChanWake Proof.ChanWakeInv Proof.ChanWakeBase Proof.ChanWakeL1
+From WV Require Import Lib.Conc Model.ChanWake Proof.ChanWakeInv Proof.ChanWakeBase Proof.ChanWakeL1 Proof.ChanWakeL1b
   Proof.ChanWakeL2 Proof.ChanWakeL3 Proof.ChanWakeL4 Proof.ChanWakeL5 Proof.ChanWakeL6.
 Import ListNotations.
 Open Scope Z_scope.
 
 Definition Inv (c : cfg) (s : state) : Prop :=
-  Inv1 s /\ Inv2 s /\ Inv3 s /\ Inv4 c s /\ Inv5 c s /\ G6 c s.
+  Inv1 s /\ Inv2 s /\ Inv3 s /\ Inv4 c s /\ Inv5 c s /\ G6 c s /\ Inv1b s.
 
 Definition runc (c : cfg) (nw : nat) (sched : list choice) : state := run (step c) (init nw) sched.
 
@@ -16,7 +16,7 @@ Lemma inv_init : forall c nw, (0 < nw)%nat -> Inv c (init nw).
 Proof.
   intros. unfold Inv.
   split; [apply inv1_init|]. split; [apply inv2_init; auto|]. split; [apply inv3_init|].
-  split; [apply inv4_init|]. split; [apply inv5_init|apply g6_init].
+  split; [apply inv4_init|]. split; [apply inv5_init|]. split; [apply g6_init|apply inv1b_init].
 Qed.
 
 (* the ghost flag is never reset *)
@@ -38,9 +38,9 @@ Qed.
 Lemma inv_step : forall c s ch s' l,
   0 <= hw c -> Inv c s -> step c s ch = Some (s', l) -> taint s' = false -> Inv c s'.
 Proof.
-  intros c s ch s' l Hhw (H1 & H2 & H3 & H4 & H5 & H6) H Ht. unfold Inv.
+  intros c s ch s' l Hhw (H1 & H2 & H3 & H4 & H5 & H6 & H7) H Ht. unfold Inv.
   split; [eapply inv1_step; eauto|]. split; [eapply inv2_step; eauto|]. split; [eapply inv3_step; eauto|].
-  split; [eapply inv4_step; eauto|]. split; [eapply inv5_step; eauto|eapply g6_step; eauto].
+  split; [eapply inv4_step; eauto|]. split; [eapply inv5_step; eauto|]. split; [eapply g6_step; eauto|eapply inv1b_step; eauto].
 Qed.
 
 Theorem inv_reachable : forall c nw sched,
@@ -159,11 +159,43 @@ Proof.
     destruct (HnoW eq_refl) as (_ & Hwc & Hcwf). rewrite Hwc, Hcwf. reflexivity.
 Qed.
 
+(* no deadlock: if no thread of the server can move then every worker is parked on a
+   condition and the I/O thread sleeps in select (nobody is stuck on a lock) *)
+Lemma io_holder_enabled : forall s, io_holds_o (io s) = true -> io_enabled s = true.
+Proof. intros s H. unfold io_enabled. destruct (io s); simpl in *; try discriminate; auto. Qed.
+Lemma w_holder_enabled : forall s p, w_holds_o p = true -> w_enabled s p = true.
+Proof. intros s p H. destruct p; simpl in *; try discriminate; auto. Qed.
+Lemma io_rholder_enabled : forall s, olock s = None -> io_holds_r (io s) = true -> io_enabled s = true.
+Proof. intros s Ho H. unfold io_enabled. destruct (io s); simpl in *; try discriminate; auto; rewrite Ho; reflexivity. Qed.
+Lemma w_rholder_enabled : forall s p, olock s = None -> w_holds_r p = true -> w_enabled s p = true.
+Proof. intros s p Ho H. destruct p; simpl in *; try discriminate; auto; rewrite Ho; reflexivity. Qed.
+
+Lemma quiescent_is_parked : forall c s, Inv c s -> quiescent s = true -> quiescent_parked s = true.
+Proof.
+  intros c s (_ & _ & _ & _ & _ & _ & (Ho & Hr)) Hq. unfold quiescent in Hq.
+  apply andb_true_iff in Hq. destruct Hq as [Hio Hws]. apply negb_true_iff in Hio.
+  assert (Hwd : forall j p, nth_error (ws s) j = Some p -> w_enabled s p = false).
+  { intros j p Hj. pose proof (forallb_nth _ _ _ _ _ Hws Hj) as Hx. simpl in Hx. apply negb_true_iff in Hx. exact Hx. }
+  assert (Hol : olock s = None).
+  { destruct (olock s) as [[|j]|] eqn:E; auto; simpl in Ho.
+    - rewrite (io_holder_enabled s Ho) in Hio. discriminate.
+    - destruct Ho as (p & Hj & Hh). pose proof (Hwd _ _ Hj) as Hx. rewrite (w_holder_enabled s p Hh) in Hx. discriminate. }
+  assert (Hrl : rlock s = None).
+  { destruct (rlock s) as [[|j]|] eqn:E; auto; simpl in Hr.
+    - rewrite (io_rholder_enabled s Hol Hr) in Hio. discriminate.
+    - destruct Hr as (p & Hj & Hh). pose proof (Hwd _ _ Hj) as Hx. rewrite (w_rholder_enabled s p Hol Hh) in Hx. discriminate. }
+  unfold quiescent_parked. apply andb_true_iff. split.
+  - unfold io_enabled in Hio. destruct (io s); try discriminate; try (rewrite ?Hol, ?Hrl in Hio; discriminate).
+    rewrite Hio. reflexivity.
+  - apply forallb_intro. intros j p Hj. specialize (Hwd _ _ Hj).
+    destruct p; simpl in *; try discriminate; try reflexivity; rewrite ?Hol, ?Hrl in Hwd; discriminate.
+Qed.
+
 (* the same for quiescent states in which workers may also sit in the application *)
 Lemma quiescent_app_ok : forall c s,
   1 <= hw c -> sb c <= hw c -> Inv c s -> quiescent_app s = true -> in_kf_class s = false -> app_ok c s = true.
 Proof.
-  intros c s Hhw Hsb (H1 & H2 & H3 & H4 & _ & H6) Hq Hkf.
+  intros c s Hhw Hsb (H1 & H2 & H3 & H4 & _ & H6 & _) Hq Hkf.
   unfold quiescent_app in Hq. destruct (io s) eqn:Eio; try discriminate.
   apply andb_true_iff in Hq. destruct Hq as [Hsel Hall]. apply negb_true_iff in Hsel.
   unfold sel_enabled in Hsel. apply orb_false_iff in Hsel. destruct Hsel as [Hsel Hrd].
@@ -218,6 +250,19 @@ Proof.
   intros c nw sched Hhw Hnw Hq Hkf. apply (quiescent_ok c); auto.
   apply inv_reachable; auto; try lia.
   unfold in_kf_class in Hkf. apply orb_false_iff in Hkf. tauto.
+Qed.
+
+(* stated for the widest notion of quiescence: no thread of the server is enabled *)
+Theorem c05_partial_stuck : forall c nw sched,
+  1 <= hw c -> (0 < nw)%nat ->
+  quiescent (runc c nw sched) = true ->
+  in_kf_class (runc c nw sched) = false ->
+  quiescent_parked (runc c nw sched) = true /\ c05_ok (runc c nw sched) = true.
+Proof.
+  intros c nw sched Hhw Hnw Hq Hkf.
+  assert (HI : Inv c (runc c nw sched)).
+  { apply inv_reachable; auto; try lia. unfold in_kf_class in Hkf. apply orb_false_iff in Hkf. tauto. }
+  pose proof (quiescent_is_parked c _ HI Hq) as Hp. split; auto. apply (quiescent_ok c); auto.
 Qed.
 
 Theorem c05_app_partial : forall c nw sched,
